@@ -507,3 +507,207 @@ func oneofEquivalent(filter *types.Struct, paths pathSet, pth string) bool {
 	}
 	return false
 }
+
+// ---- framing: an element is never omitted from the encoding because it is empty ---------------------------
+
+// ipdoms computes the immediate post-dominator of every block (nil = the virtual exit).
+func ipdoms(fn *ssa.Function) map[*ssa.BasicBlock]*ssa.BasicBlock {
+	n := len(fn.Blocks)
+	// pdom sets as bitsets over block indices; index n = virtual exit
+	full := make([]bool, n+1)
+	for i := range full {
+		full[i] = true
+	}
+	pd := make([][]bool, n+1)
+	for i := 0; i <= n; i++ {
+		pd[i] = append([]bool(nil), full...)
+	}
+	pd[n] = make([]bool, n+1)
+	pd[n][n] = true
+	succs := func(b *ssa.BasicBlock) []int {
+		if len(b.Succs) == 0 {
+			return []int{n}
+		}
+		var out []int
+		for _, s := range b.Succs {
+			out = append(out, s.Index)
+		}
+		return out
+	}
+	for changed := true; changed; {
+		changed = false
+		for i := n - 1; i >= 0; i-- {
+			b := fn.Blocks[i]
+			nw := append([]bool(nil), full...)
+			for _, s := range succs(b) {
+				for k := range nw {
+					nw[k] = nw[k] && pd[s][k]
+				}
+			}
+			nw[i] = true
+			for k := range nw {
+				if nw[k] != pd[i][k] {
+					changed = true
+				}
+			}
+			pd[i] = nw
+		}
+	}
+	out := map[*ssa.BasicBlock]*ssa.BasicBlock{}
+	for i := 0; i < n; i++ {
+		// the strict post-dominator that is post-dominated by all other strict post-dominators
+		var best *ssa.BasicBlock
+		bestCount := -1
+		for k := 0; k < n; k++ {
+			if k == i || !pd[i][k] {
+				continue
+			}
+			cnt := 0
+			for j := 0; j <= n; j++ {
+				if pd[k][j] {
+					cnt++
+				}
+			}
+			if cnt > bestCount {
+				best, bestCount = fn.Blocks[k], cnt
+			}
+		}
+		out[fn.Blocks[i]] = best
+	}
+	return out
+}
+
+func isEmptinessFact(f Fact) bool {
+	lenOf := func(v ssa.Value) bool {
+		c, ok := unwrap(v).(*ssa.Call)
+		if !ok {
+			return false
+		}
+		b, ok := c.Call.Value.(*ssa.Builtin)
+		return ok && b.Name() == "len"
+	}
+	switch f.Kind {
+	case "eq":
+		if s, ok := constString(f.Y); ok && s == "" {
+			return true
+		}
+		return lenOf(f.X) || (f.Y != nil && lenOf(f.Y))
+	case ">", "<", ">=", "<=":
+		return lenOf(f.X) || (f.Y != nil && lenOf(f.Y))
+	}
+	return false
+}
+
+func ruleEncodeNotEmptinessConditional(e *Engine, r *Reporter) {
+	r.Rule("encode-not-omitted-when-empty", "in the key encoders no element is written on one side of an emptiness test (len(x) > 0, x != \"\") while the other side reaches the join without writing anything: an element omitted when empty removes the framing that makes the concatenation uniquely decodable", 0)
+	isEncode := func(in ssa.Instruction) bool {
+		c, ok := in.(ssa.CallInstruction)
+		if !ok {
+			return false
+		}
+		m, ok := isKeyBuilderMethod(c)
+		return ok && (strings.HasPrefix(m, "Encode") || m == "Serialize" || strings.HasPrefix(m, "Write"))
+	}
+	var fns []*ssa.Function
+	for _, fn := range e.Fns {
+		if isTestSupport(pkgOf(fn)) || len(fn.Blocks) == 0 {
+			continue
+		}
+		has := false
+		eachInstr(fn, false, func(in ssa.Instruction) {
+			if isEncode(in) {
+				has = true
+			}
+		})
+		// scope: encoders proper — the keys package itself and functions that return a keys.Key
+		// (key planning code that happens to build a key inline branches on emptiness for other reasons)
+		isKeyFn := pkgOf(fn) == keysPkg
+		if res := fn.Signature.Results(); res.Len() == 1 && typeBaseName(res.At(0).Type()) == "Key" {
+			isKeyFn = true
+		}
+		if has && isKeyFn {
+			fns = append(fns, fn)
+		}
+	}
+	if len(fns) < 10 {
+		blind("encode-not-omitted-when-empty: only %d functions with builder encodes found", len(fns))
+	}
+	n := 0
+	for _, fn := range fns {
+		pd := ipdoms(fn)
+		ord := 0
+		for _, b := range fn.Blocks {
+			ifi, ok := b.Instrs[len(b.Instrs)-1].(*ssa.If)
+			if !ok {
+				continue
+			}
+			emp := false
+			for _, f := range edgeFacts(b, 0) {
+				if isEmptinessFact(f) {
+					emp = true
+				}
+			}
+			if !emp || loopHeader(b) == b {
+				continue // loop-continuation tests are not omission decisions
+			}
+			join := pd[b]
+			// does a side reach the join without an encode / with an encode?
+			side := func(start *ssa.BasicBlock) (withEnc, bare bool) {
+				type st struct {
+					b   *ssa.BasicBlock
+					enc bool
+				}
+				seen := map[st]bool{}
+				work := []st{{start, false}}
+				for len(work) > 0 {
+					x := work[len(work)-1]
+					work = work[:len(work)-1]
+					if x.b == join {
+						if x.enc {
+							withEnc = true
+						} else {
+							bare = true
+						}
+						continue
+					}
+					if seen[x] {
+						continue
+					}
+					seen[x] = true
+					enc := x.enc
+					for _, in := range x.b.Instrs {
+						if isEncode(in) {
+							enc = true
+						}
+					}
+					if len(x.b.Succs) == 0 {
+						// leaves the function (return/panic): nothing more is written either way
+						if join == nil {
+							if enc {
+								withEnc = true
+							} else {
+								bare = true
+							}
+						}
+						continue
+					}
+					for _, s := range x.b.Succs {
+						work = append(work, st{s, enc})
+					}
+				}
+				return
+			}
+			w0, b0 := side(b.Succs[0])
+			w1, b1 := side(b.Succs[1])
+			if !(w0 || w1) {
+				continue // the test does not decide about an encode
+			}
+			n++
+			bad := (w0 && b1 && !w1) || (w1 && b0 && !w0)
+			key := fmt.Sprintf("%s | emptiness test #%d", fname(fn), ord)
+			ord++
+			_ = ifi
+			r.Check(!bad, key, e.instrPos(ifi), "both sides write, or neither", "an element is encoded only when non-empty and the empty case writes nothing: without the element's tag the following strings shift into its position, so distinct inputs encode identically before hashing")
+		}
+	}
+}
